@@ -86,6 +86,8 @@ def strategy_impl(draw, tier):
         "boundary": draw(st.sampled_from(M.RULES)), "op": draw(st.sampled_from(["diff", "interp", "min", "max", "cumsum"])),
         # a second model run in the same interpreter: same names, other metric values, used first
         "decoy_first": draw(st.booleans()),
+        # masks and counters are data too: the metric is a property of the grid, whatever the type of the array it is asked for
+        "data_dtype": draw(st.sampled_from(["float64", "float64", "float64", "float32", "int32", "int16", "bool"])),
     }
 
 
@@ -100,7 +102,7 @@ def weighted_multi(draw, tier):
         for p in a["positions"]:
             L = gen.pos_len(a["n"], p)
             metrics[gen.dim_name(a["name"], p)] = draw(st.lists(st.integers(1, 24).map(lambda k: k / 4.0), min_size=L, max_size=L))
-    spelling = draw(st.sampled_from(["dict", "dict", "tuple-all"]))
+    spelling = draw(st.sampled_from(["dict", "dict", "tuple-all", "dict-of-str"]))
     return {"kind": "weighted-multi", "sub": sub, "metrics": metrics, "mw_spelling": spelling}
 
 
@@ -144,7 +146,9 @@ def check_weighted_multi(case, ctx):
         a = a / bc(case["metrics"][dims[k]], k, a.ndim)
     da = build.data_array(sub["values"], sub["dims"], name="phi")
     kw = C01.call_kwargs(sub, sub["to"])
-    if case["mw_spelling"] == "dict":
+    if case["mw_spelling"] == "dict-of-str":
+        mw = {n: n for n in sub["op_axes"]}   # `metric_weighted : str or tuple of str or dict`
+    elif case["mw_spelling"] == "dict":
         mw = {n: (n,) for n in sub["op_axes"]}
     else:
         # one spelling for every axis is only the same request when a single axis is operated
@@ -269,7 +273,9 @@ def check(case, ctx):
         metrics_arg[tuple(r["axes"])] = [e["name"] for e in r["vars"]]
     grid = must_return("Grid construction", build.make_grid, ds, axes, metrics=metrics_arg, boundary=case["boundary"])
     vals = np.asarray(case["values"], dtype=np.float64).copy()
-    da_full = xr.DataArray(vals, dims=case["dims"], name="phi")
+    if case.get("data_dtype") == "bool":
+        vals = (vals > 0).astype(np.float64)
+    da_full = xr.DataArray(vals.astype(case.get("data_dtype", "float64")), dims=case["dims"], name="phi")
     req = list(case["req"])
     if case.get("decoy_first"):
         ds2 = build.make_dataset(axes, [("t", 2)])
@@ -354,6 +360,8 @@ def check(case, ctx):
         raise Violation("a constant field does not average to the constant", got=cv.tolist())
 
     # single-axis derivative and metric_weighted operation along the first requested axis
+    # (numpy defines no difference of booleans: a mask enters these as 0/1 integers)
+    da_num = da_full.astype("int32") if da_full.dtype == bool else da_full
     ax = req[0]
     frm = apos[ax]
     tos = [p for p in by[ax]["positions"] if p != frm] if frm == "center" else ["center"]
@@ -368,8 +376,8 @@ def check(case, ctx):
         acc_in = acceptable_metrics(case["registry"], [ax], apos, by)[0] if feasible else []
         if acc_out and feasible:
             kw = dict(to=to, boundary=case["boundary"], fill_value=0.0)
-            d = must_return("Grid.diff", grid.diff, da_full, ax, **kw)
-            deriv = must_return("Grid.derivative", grid.derivative, da_full, ax, **kw)
+            d = must_return("Grid.diff", grid.diff, da_num, ax, **kw)
+            deriv = must_return("Grid.derivative", grid.derivative, da_num, ax, **kw)
             ok = False
             for arr, dims in acc_out:
                 w = d / xr.DataArray(arr, dims=dims)
@@ -381,11 +389,11 @@ def check(case, ctx):
             classes.append("derivative")
             op = case["op"]
             fn = getattr(grid, op)
-            gw = must_return(f"Grid.{op}(metric_weighted)", fn, da_full, ax, metric_weighted=(ax,), **kw)
+            gw = must_return(f"Grid.{op}(metric_weighted)", fn, da_num, ax, metric_weighted=(ax,), **kw)
             ok = False
             for ain, din in acc_in:
-                pre = da_full * xr.DataArray(ain, dims=din)
-                mid = must_return(f"Grid.{op}", fn, pre.transpose(*da_full.dims), ax, **kw)
+                pre = da_num * xr.DataArray(ain, dims=din)
+                mid = must_return(f"Grid.{op}", fn, pre.transpose(*da_num.dims), ax, **kw)
                 for aout, dout in acc_out:
                     w = mid / xr.DataArray(aout, dims=dout)
                     if set(w.dims) == set(gw.dims) and same_values(w.transpose(*gw.dims), gw):
